@@ -209,14 +209,24 @@ func TestBounded(t *testing.T) {
 			}})
 		}
 		for _, v := range variants {
-			base := v.build(ents, vp.NewStore().LS())
+			st0 := vp.NewStore()
+			base := v.build(ents, st0.LS())
 			if base.err != "" && label != "fullcollision" {
 				t.Fatalf("%s/%s: %s", label, v.name, base.err)
 			}
 			id := fmt.Sprintf("dir:%s,%s", v.name, label)
 			r.Sample(map[string]any{"case": id, "entries": len(ents), "link": base.link, "size": base.size})
-			for p := -2; p < vp.Pick(6, 30); p++ {
+			for p := -3; p < vp.Pick(6, 30); p++ {
 				es := append([]dagpb.PBLink(nil), ents...)
+				if p == -3 { // same order, into the store that already holds every block of the first build
+					r.Eval(fmt.Sprintf("%s,perm=again-same-store", id))
+					r.Guard(id, func() {
+						if got := v.build(es, st0.LS()); got != base {
+							r.Fail(id, "a second build into the same store gives %+v, the first build gave %+v", got, base)
+						}
+					})
+					continue
+				}
 				switch {
 				case p == -2: // same order, fresh store: repeated build
 				case p == -1:
